@@ -438,6 +438,9 @@ pub struct Node {
 	pub outdated_chans: BTreeSet<usize>,
 	/// channels closed with OutdatedChannelManager in any incarnation so far
 	pub ever_outdated_chans: BTreeSet<usize>,
+	/// channels this node reported closed (any reason) in this / in an earlier incarnation
+	pub closed_this_incarnation: BTreeSet<usize>,
+	pub closed_in_earlier_incarnation: BTreeSet<usize>,
 	/// generation of the manager snapshot each restart loaded
 	pub loaded_gens: Vec<u64>,
 	/// channels that were closed (user force close or peer error) while an asynchronous monitor
@@ -504,6 +507,7 @@ pub struct PayEvents {
 	pub path_failed: Vec<(u64, Option<u64>, bool)>, // (step, scid, permanently)
 	/// manager snapshot generation current when each PaymentSent / PaymentPathFailed was handled
 	pub sent_gen: Vec<u64>,
+	pub failed_gen: Vec<u64>,
 	pub path_failed_gen: Vec<u64>,
 	pub claimable: Vec<(u64, u64)>,                 // (step, amount)
 	pub claimed: Vec<(u64, u64)>,
@@ -549,6 +553,8 @@ pub struct Pay {
 	/// the sender restarted from a ChannelManager snapshot taken before it handled this payment's
 	/// PaymentSent: every later incarnation descends from a manager that does not know about it
 	pub sent_handling_lost: bool,
+	/// likewise for PaymentFailed: reported, then rolled back by a restart from an older snapshot
+	pub failed_handling_lost: bool,
 	/// the sender restarted from a manager snapshot older than the payment and re-learned it
 	/// from its ChannelMonitors
 	pub rehydrated: bool,
@@ -731,6 +737,8 @@ impl World {
 				forward_fees_told_msat: 0,
 				outdated_chans: BTreeSet::new(),
 				ever_outdated_chans: BTreeSet::new(),
+				closed_this_incarnation: BTreeSet::new(),
+				closed_in_earlier_incarnation: BTreeSet::new(),
 				loaded_gens: Vec::new(),
 				closed_inflight: BTreeSet::new(),
 				check_roundtrip: cfg.profile == "roundtrip",
@@ -1687,6 +1695,8 @@ impl World {
 			Event::PaymentFailed { payment_id, .. } => {
 				if let Some(pi) = self.pay_by_id(&payment_id) {
 					self.pays[pi].ev.failed.push((step, inc));
+					let g = self.nodes[n].disk.lock().unwrap().manager_generation;
+					self.pays[pi].ev.failed_gen.push(g);
 					self.oracle_on_failed(n, pi);
 				}
 			},
@@ -1729,6 +1739,9 @@ impl World {
 	fn on_channel_closed(&mut self, n: usize, channel_id: ChannelId, reason: String) {
 		self.note(&format!("node {} ChannelClosed {} {}", n, channel_id, reason));
 		let ci = self.chan_by_id(&channel_id);
+		if let Some(c) = ci {
+			self.nodes[n].closed_this_incarnation.insert(c);
+		}
 		let short = reason.split(|c: char| !c.is_alphanumeric()).next().unwrap_or("").to_string();
 		self.out.bump(&format!("closure:{}", short));
 		let coop = short.contains("CooperativeClosure");
@@ -2065,6 +2078,7 @@ impl World {
 			underpaid_hop,
 			flaw,
 			sent_handling_lost: false,
+			failed_handling_lost: false,
 			rehydrated: false,
 		});
 		self.note(&format!("send pay {} {}->{} total {} accepted {}", idx, from, to, total, pending));
